@@ -131,6 +131,11 @@ def gen_scenarios(v, tier, seed, rng):
     return scen
 
 
+def far_scenarios(start_id):
+    # a store of more than 4 GiB (the products of counts and piece sizes leave 32 bits)
+    return [{"id": start_id, "threads": 0, "far": True}]
+
+
 def stress_scenarios(tier, seed, start_id):
     n, ms = (6, 1500) if tier == "quick" else (48, 5000)
     out = []
@@ -241,6 +246,8 @@ def run(prop, tier, seed, replay=None):
         scen = gen_scenarios(v, tier, seed, rng)
         scen += random_scenarios(tier, seed, len(scen))
         scen += stress_scenarios(tier, seed, len(scen))
+        if prop == "C03":
+            scen += far_scenarios(len(scen))
     vh = vlib.build_harness()
     wd = vlib.scratch("ps-")
     sf, rf = os.path.join(wd, "scen.ndjson"), os.path.join(wd, "res.ndjson")
@@ -282,6 +289,11 @@ def run(prop, tier, seed, replay=None):
                 v.warn("scenario %s: %s violation %s: %s" % (sid, vi["prop"], vi["key"], vi["what"]))
         for nc in o.get("nonconf") or []:
             v.warn("nonconformance: scenario %s %s" % (sid, nc))
+        if sc.get("far"):
+            if o.get("note"):
+                raise Internal("far store scenario: %s" % o["note"])
+            v.cov["store_beyond_4GiB"] = "260 mapped pieces of 16 MiB: Bytes() = allocator's count, eviction pass down to 1 GiB, Del releases everything"
+            continue
         if "stress" in sc:
             stress_stats["runs"] += 1
             for a, b in (("reads", "reads"), ("reads_returning_data", "reads_data"), ("blocks_added", "adds"),
@@ -292,7 +304,7 @@ def run(prop, tier, seed, replay=None):
         nt = str(sc.get("threads", 2)) + ("x3" if sc.get("np") == 3 else "") + ("x2" if sc.get("np") == 2 else "")
         for k, e in enumerate(o.get("events") or []):
             events[nt].append((sid, k, e))
-        if "random" not in sc and "stress" not in sc:
+        if "random" not in sc and "stress" not in sc and not sc.get("far"):
             v.sample({"scenario": sid, "geom": sc.get("geom"), "steps": [[s["a"]["t"], s["a"]["a"]] for s in sc["steps"]][:14]})
     if nres != len(scen):
         raise Internal("harness returned %d results for %d scenarios" % (nres, len(scen)))
